@@ -54,9 +54,9 @@ func sockConfigs(thorough bool) []config {
 	}
 	if thorough {
 		cs = append(cs,
-			config{Name: "tcp/2-senders-2-sections", Kind: "tcp", Senders: 2, NS: 2, NR: 2, MaxW: 2, MaxR: 2, Cap: 100, SAbort: true, RAbort: true, Budget: 1, ToMs: 25, WToMs: 2000},
 			config{Name: "tcp/3-sections", Kind: "tcp", Senders: 1, NS: 3, NR: 3, MaxW: 2, MaxR: 2, Cap: 100, SAbort: true, RAbort: true, Budget: 1, ToMs: 25, WToMs: 2000},
-			config{Name: "relaxed/3-sections", Kind: "relaxed", Senders: 1, NS: 3, NR: 3, MaxW: 2, MaxR: 2, Cap: 100, RAbort: true, Len: true, Budget: 1, ToMs: 25, WToMs: 2000},
+			config{Name: "relaxed/3-sections", Kind: "relaxed", Senders: 1, NS: 3, NR: 3, MaxW: 2, MaxR: 2, Cap: 100, RAbort: true, Len: true, Budget: 0, ToMs: 25, WToMs: 2000},
+			config{Name: "tcp/2-senders-2-sections", Kind: "tcp", Senders: 2, NS: 2, NR: 2, MaxW: 2, MaxR: 2, Cap: 100, SAbort: true, RAbort: true, Budget: 0, ToMs: 25, WToMs: 2000},
 		)
 	}
 	return cs
@@ -94,7 +94,7 @@ func bubbleConfigs(thorough bool) []config {
 				mw = 1
 			}
 			cs = append(cs, config{Name: k + "/3-sections/cap1", Kind: k, Senders: 1, NS: 3, NR: 3, MaxW: mw, MaxR: 2, Cap: 1, SAbort: true, RAbort: true, Budget: 1})
-			cs = append(cs, config{Name: k + "/2-senders-2-sections/cap2", Kind: k, Senders: 2, NS: 2, NR: 2, MaxW: mw, MaxR: 2, Cap: 2, SAbort: true, RAbort: true, Budget: 1})
+			cs = append(cs, config{Name: k + "/2-senders-2-sections/cap2", Kind: k, Senders: 2, NS: 2, NR: 2, MaxW: mw, MaxR: 2, Cap: 2, SAbort: true, RAbort: true, Budget: 0})
 		}
 	}
 	return cs
@@ -206,29 +206,26 @@ func TestCheck(t *testing.T) {
 			}
 		}
 
-		// Go-channel kinds: bubbles, one worker (a bubble costs microseconds)
-		bcs := bubbleConfigs(env.Thorough())
-		bubbleDeadline := time.Now().Add(time.Until(env.Deadline) / 3)
-		for i := range bcs {
-			cfg := bcs[i]
-			if os.Getenv("C06_SKIP_BUBBLE") != "" {
-				break
-			}
+		// Go-channel kinds run in bubbles (microseconds each), socket kinds in real time.  Every configuration may use
+		// twice its fair share of the time that is left, so that one large tree cannot starve the configurations after it.
+		all := append(bubbleConfigs(env.Thorough()), sockConfigs(env.Thorough())...)
+		end := env.Deadline.Add(-15 * time.Second)
+		for i := range all {
+			cfg := all[i]
 			if f := os.Getenv("C06_ONLY"); f != "" && !strings.Contains(cfg.Name, f) {
 				continue
 			}
-			st := explore.Run(bubbleBody(t, &cfg), explore.Options{Budget: cfg.Budget, Workers: env.Workers, Deadline: bubbleDeadline, Samples: 1})
-			add(cfg, st)
-		}
-		// socket kinds
-		scs := sockConfigs(env.Thorough())
-		for i := range scs {
-			cfg := scs[i]
-			if f := os.Getenv("C06_ONLY"); f != "" && !strings.Contains(cfg.Name, f) {
-				continue
+			dl := time.Now().Add(2 * time.Until(end) / time.Duration(len(all)-i))
+			if dl.After(end) {
+				dl = end
 			}
-			st := explore.Run(sockBody(&cfg), explore.Options{Budget: cfg.Budget, Workers: env.Workers, Deadline: env.Deadline.Add(-15 * time.Second), Samples: 1,
-				Setup: func(w int) any { return &worker{ip: fmt.Sprintf("127.6.%d.1", w+1), port: 20000 + (w*131)%1000} }})
+			var st *explore.Stats
+			if isSock(cfg.Kind) {
+				st = explore.Run(sockBody(&cfg), explore.Options{Budget: cfg.Budget, Workers: env.Workers, Deadline: dl, Samples: 1,
+					Setup: func(w int) any { return &worker{ip: fmt.Sprintf("127.6.%d.1", w+1), port: 20000 + (w*131)%1000} }})
+			} else {
+				st = explore.Run(bubbleBody(t, &cfg), explore.Options{Budget: cfg.Budget, Workers: env.Workers, Deadline: dl, Samples: 1})
+			}
 			add(cfg, st)
 		}
 
